@@ -5,7 +5,7 @@
 (* action binds the logged fields and evaluates the property rules of       *)
 (* DESIGN.md Appendix B against the Ref layer.                              *)
 (***************************************************************************)
-EXTENDS TraceBase, Message, NameText, Bytes
+EXTENDS TraceBase, Compress, NameText, Bytes
 
 VARIABLES l          \* index of the next event to consume
 vars == <<l>>
@@ -224,6 +224,12 @@ TraceRoundTrip ==
              <<"comp", IF compOk THEN Len(Ev.comp[2]) ELSE 0, "plain", IF plainOk THEN Len(Ev.plain[2]) ELSE 0>>)
      /\ Rule(l, "CompRoundTrip", compOk => (Ev.pc[1] = "ok" /\ Ev.pc[2] = p),
              <<"comp", Ev.pc[1], IF Ev.pc[1] = "ok" THEN PktDiff(Ev.pc[2], p) ELSE "-">>)
+     \* C07: every name site of the compressed output, located by the schema-aware walker
+     /\ LET ss == IF compOk /\ dc.ok THEN Sites(Ev.comp[2]) ELSE <<>> IN
+        \A k \in 1 .. Len(ss) :
+          /\ Rule(l, "PtrValid", PtrValid(ss, k), <<"site", ss[k].pos, "ptr", ss[k].ptr, "cls", ss[k].cls>>)
+          /\ Rule(l, "PtrForbidden", PtrForbidden(ss, k), <<"site", ss[k].pos, "ptr", ss[k].ptr>>)
+          /\ Rule(l, "PtrRequired", PtrRequired(ss, k), <<"site", ss[k].pos, "labels", ss[k].labels>>)
 
 (* Peek: the eight header_buffer functions on buffer e.b;                      *)
 (* e.r[i] = <<"ok", v>> | <<"err">> | <<"panic", where>> for id, questions,    *)
@@ -258,6 +264,28 @@ TraceInspect ==
   /\ \A i \in 1 .. Len(Ev.obs) :
        Rule(l, "ObserverTotal", ObserverOK(Ev.obs[i]), <<Ev.obs[i][1], Ev.obs[i][2], Ev.obs[i][4], "utf8", Utf8Ok(Ev.obs[i][3])>>)
 
+(* SinkBuild (C04): packet e.pkt written with mode e.mode ("plain"/"comp") into  *)
+(* a writer of kind e.kind starting at offset e.start over storage pre-filled     *)
+(* with e.prefill (capacity e.cap for fixed writers, -1 for growable ones).       *)
+(* e.ref = bytes returned by the vector-returning entry point for the same mode;  *)
+(* e.out = <<"ok">>|<<"err", k>>|<<"panic", w>>; e.after = storage afterwards     *)
+Fits(e) == e.cap = -1 \/ e.start + Len(e.ref) <= e.cap
+TraceSinkBuild ==
+  /\ Ev.ev = "SinkBuild"
+  /\ LET n == Len(Ev.ref)
+         a == Ev.after
+         pre == Ev.prefill IN
+     /\ Rule(l, "NoPanic", Ev.out[1] # "panic", <<Ev.kind, Ev.mode, "start", Ev.start, "cap", Ev.cap, Ev.out>>)
+     /\ Rule(l, "SinkErr", Fits(Ev) = (Ev.out[1] = "ok"), <<Ev.kind, Ev.mode, "start", Ev.start, "cap", Ev.cap, "need", n, Ev.out[1]>>)
+     /\ Rule(l, "SinkSame",
+             Ev.out[1] = "ok" =>
+               /\ Len(a) >= Ev.start + n
+               /\ SubSeq(a, Ev.start + 1, Ev.start + n) = Ev.ref                                   \* the message itself
+               /\ SubSeq(a, 1, Ev.start) = SubSeq(pre, 1, Ev.start)                               \* nothing before it touched
+               /\ SubSeq(a, Ev.start + n + 1, Len(a)) = SubSeq(pre, Ev.start + n + 1, Len(pre)),   \* no other bytes written
+             <<Ev.kind, Ev.mode, "start", Ev.start, "cap", Ev.cap, "prefill", Len(pre), "need", n, "after", Len(a),
+               "first-diff", IF Ev.out[1] = "ok" /\ Len(a) >= Ev.start + n THEN FirstDiff(Ev.ref, SubSeq(a, Ev.start + 1, Ev.start + n)) ELSE 0>>)
+
 (* Reparse (C11): bytes e.b accepted by the parser (e.p1), re-serialised plain  *)
 (* (e.b2) and compressed (e.b3), each parsed again (e.p2, e.p3)                 *)
 TraceReparse ==
@@ -279,7 +307,7 @@ Next == /\ l <= Len(Rec)
            \/ TraceFlagOps
            \/ TraceNameDecode
            \/ TraceNameNew \/ TraceLabelNew \/ TraceNameRel
-           \/ TraceParse \/ TracePeek \/ TraceInspect \/ TraceRoundTrip \/ TraceReparse
+           \/ TraceParse \/ TracePeek \/ TraceInspect \/ TraceSinkBuild \/ TraceRoundTrip \/ TraceReparse
            \/ TraceCodeConv \/ TraceMnemonics \/ TraceMatchType \/ TraceMatchClass
 
 Spec == Init /\ [][Next]_vars
